@@ -5,10 +5,12 @@ import DdsModel.Paths
 -/
 namespace Dds
 
-/-- a run-time argument expression `rt(r_i…, p…)`: indices of earlier results and names of own parameters -/
+/-- a run-time argument expression `rt(r_i…, p…, 'lit'…)`: indices of earlier results, names of own parameters,
+string literals -/
 structure RtExpr where
   rs : List Nat
   ps : List String
+  lits : List String := []
 
 inductive Item where
   /-- plain call `r = f()` (arguments not inspected by the analysis: none are passed) -/
